@@ -95,6 +95,8 @@ def replyOf : Out → String
   | .errBusy => "err:Busy"
   | .errInvalidCommand => "err:InvalidCommand"
   | .errConstraint => "err:ConstraintError"
+  | .errPakeParam => "err:Failure cs=3"
+  | .errClusterBusy => "err:Failure cs=2"
   | .pbkdfResp _ => "pbkdfresp"
   | .pake2 _ => "pake2"
   | .statusSuccess => "status:0"
@@ -172,6 +174,10 @@ def step (st : St) (line : String) : St × String :=
       | "open" => (some (.op (.openWin (st.devPw * 1000 + st.opens + 1) (m.num "t"))), st)
       | "openenh" =>
         (some (.op (.openEnh (m.num "pw" * 1000 + st.opens + 1) (m.num "t") (m.num "sl") (m.num "it") (m.num "disc"))), st)
+      | "cmdopen" =>
+        (some (.op (.cmdOpenEnh (m.num "pw" * 1000 + st.opens + 1) (m.num "t") (m.num "sl") (m.num "it") (m.num "disc")
+          ((m.optNum "vl").getD 97))), st)
+      | "cmdbasic" => (some (.op (.cmdOpenBasic (st.devPw * 1000 + st.opens + 1) (m.num "t"))), st)
       | "revoke" => (some (.op .revoke), st)
       | "tick" => (some (.op (.tick (m.num "ms"))), st)
       | "poll" => (some (.op .poll), st)
@@ -244,7 +250,7 @@ def step (st : St) (line : String) : St × String :=
       -- what the initiator learns from the answer
       let st := match o with
         | .pbkdfResp ctx => setIni st { (st.inis.find? (fun (i : Ini) => i.k = k)).getD { k := k } with ctx := some ctx, salt := st.opens }
-        | .ok => if head = "open" || head = "openenh" then { st with opens := st.opens + 1 } else st
+        | .ok => if head = "open" || head = "openenh" || head = "cmdopen" || head = "cmdbasic" then { st with opens := st.opens + 1 } else st
         | .pake2 pB => setIni st { (st.inis.find? (fun (i : Ini) => i.k = k)).getD { k := k } with pB := some pB }
         | _ => st
       -- the op itself takes (virtual) time: the observation is made after it
@@ -258,8 +264,10 @@ def step (st : St) (line : String) : St × String :=
       let sp := specExpire sp now
       -- expected-by-spec effects of the op on the window
       let sp := match head with
-        | "open" => if reply = "ok" then { sp with win := some (st.devPw, now + m.num "t" * 1000, 0) } else sp
-        | "openenh" => if reply = "ok" then { sp with win := some (m.num "pw", now + m.num "t" * 1000, 0) } else sp
+        | "open" | "cmdbasic" =>
+          if reply = "ok" then { sp with win := some (st.devPw, now + m.num "t" * 1000, 0), lingering := false } else sp
+        | "openenh" | "cmdopen" =>
+          if reply = "ok" then { sp with win := some (m.num "pw", now + m.num "t" * 1000, 0), lingering := false } else sp
         | "revoke" => { sp with win := none }
         | _ => sp
       -- (1) a session appears only at a Pake3 with the passcode of the open window's verifier, an unmodified /
